@@ -377,11 +377,24 @@ def run(ctx):
         "skipped_ill_kinded": skipped,
         "name_cases": len(cases), "name_cases_with_shared_display_name": shared,
         **informational(),
+        **_part_c(ctx),
         "harness_errors": n_harness,
     }
 
 
+def _part_c(ctx):
+    from checks import c31b
+    return c31b.run_part(ctx)
+
+
 def replay(ctx, item):
+    if item.get("part") == "C":
+        from checks import c31b
+        return c31b.replay(ctx, item)
+    return _replay_ab(ctx, item)
+
+
+def _replay_ab(ctx, item):
     from vlib import tyuniverse as U
     U.env()
     if item["part"] == "roundtrip":
